@@ -313,6 +313,7 @@ func c07Around(rec []byte, reps int) [][]byte {
 
 func c07Gen(g *Gen) {
 	c07SentinelN = 0
+	c07ShortSentinelN = 0
 	small := c07SampleLike(64, 96)
 	mid := c07SampleLike(400, 656)
 	two := c07TwoOutputs(200, 456)
@@ -333,7 +334,12 @@ func c07Gen(g *Gen) {
 	c07GenSequences(g, mid, two)
 	c07GenRandomConfigs(g)
 	c07GenStreams(g, small, two)
+	c07GenSentLines(g, small, two)
+	c07GenLabelLengths(g)
+	c07GenLengthClasses(g, mid, two)
 	c07GenSample(g)
+	c07GenSampleLabelLengths(g)
+	c07GenSampleLengthClasses(g)
 	c07GenAgent(g)
 }
 
@@ -849,6 +855,36 @@ func c07GenAgent(g *Gen) {
 		{"agent-huge-host", bad(func(r *c07Rec) { r.Host = strings.Repeat("h", 3<<20) })},
 		{"agent-64k-message", bad(func(r *c07Rec) { r.Msg = "[K] - " + strings.Repeat("m", 65536-8) })},
 	}
+	// wave-2 follow-up: records with NIL / garbage timestamps that carry a marker of their own - each is a record the
+	// client sent ("<PRI>1 " header) and must be delivered once, not glued to the sentinel before it
+	marked := func(ts string) []byte {
+		c07SentinelN++
+		r := b
+		r.Time = ts
+		r.Msg = fmt.Sprintf("SENTINEL-%d odd timestamp", c07SentinelN)
+		return line(r.bytes())
+	}
+	scens = append(scens,
+		scen{"agent-odd-timestamp-marked", append(append(marked("-"), marked("T12:15")...), marked("-")...)},
+		// key values with multi-byte characters across byte offsets 194..209 (metric keys host / source, orchestration key app)
+		scen{"agent-label-length", func() []byte {
+			var blob []byte
+			for p := 194; p <= 201; p++ {
+				blob = append(blob, line(c07KeyRecord("host", c07Straddle("h", p, 0)))...)
+				blob = append(blob, line(c07KeyRecord("source", c07Straddle("s", p, 0)))...)
+			}
+			for p := 197; p <= 200; p++ {
+				blob = append(blob, line(c07KeyRecord("app", c07Straddle("a", p, 0)))...)
+			}
+			return blob
+		}()},
+	)
+	{
+		classes, blobs := c07AgentLengthBlobs()
+		for i := range classes {
+			scens = append(scens, scen{classes[i], blobs[i]})
+		}
+	}
 	if g.Thorough() {
 		scens = append(scens,
 			scen{"agent-many-short-lines", bytes.Repeat([]byte("x\n"), 20000)},
@@ -862,6 +898,11 @@ func c07GenAgent(g *Gen) {
 		s1, s2, s3 := line(c07Sentinel()), line(c07Sentinel()), line(c07Sentinel())
 		// sentinels before and after the bad input on one connection, then a graceful close
 		emit(sc.class, prodMsg, prodRec, [][]byte{s1, s2, sc.blob, s3}, []int64{1, 2, 0, 2, 1, 6, 2, 2, 2, 3, 5, 100, 3, 6})
+	}
+	// a record with a NIL timestamp ALONE on its connection (nothing after it that would close the record): delivered
+	{
+		m1, m2 := marked("-"), marked("garbage")
+		emit("agent-odd-timestamp-alone", prodMsg, prodRec, [][]byte{m1, m2}, []int64{1, 2, 0, 3, 6, 1, 2, 1, 3, 6})
 	}
 	// abrupt disconnects in the middle of a record, then a new connection on the same agent
 	half := c07Base().bytes()[:40]
